@@ -44,15 +44,15 @@ def specAttempt (now : Int) (F : List Int) (failed : Bool) : List Int × Out :=
   else if failed then (F ++ [now], .delayed (getDelay (ageCount now F)))
   else (F, .passed)
 
-/-- `n` failures at once (all let through before any was recorded): the statement counts every one of
-them — afterwards the history has `n` more records, a further attempt is refused iff ten records lie
-within thirty minutes, and the i-th delay (ascending) is the delay for `i` more failures than before. -/
-def specPar (now : Int) (F : List Int) (n : Nat) : List Int × Out :=
-  if specRefused now F then (F, .rest 0 (ageCount now F) true [])
-  else
-    let F' := F ++ List.replicate n now
-    (F', .rest n (ageCount now F') (specRefused now F')
-            ((List.range n).map fun i => getDelay (ageCount now F + i)))
+/-- `n` failures at once (all let through at `now`, before any was recorded), seen at rest at
+`now + dt`: the statement counts every one of them — the history has `n` more records, a further attempt
+is refused iff ten records lie within thirty minutes, and the i-th delay (ascending) is the delay for `i`
+more failures than before.  Nothing happens if the address was already blocked at `now`. -/
+def specPar (now : Int) (F : List Int) (n dt : Nat) : List Int × Out :=
+  let p := if specRefused now F then 0 else n
+  let F' := F ++ List.replicate p now
+  (F', .rest p (ageCount (now + dt) F') (specRefused (now + dt) F')
+          ((List.range p).map fun i => getDelay (ageCount now F + i)))
 
 def specStep (h : Hist) : Op → Hist × Out
   | .attempt now addr a failed =>
@@ -63,9 +63,9 @@ def specStep (h : Hist) : Op → Hist × Out
   -- the two-phase ops are outside the sequential spec (see Props/C17: concurrency)
   | .checkOnly _ _ _ => (h, .none)
   | .throttleOnly _ _ _ => (h, .none)
-  | .par now addr a n =>
+  | .par now addr a n dt =>
     let k := throttleKey addr
-    let (F, o) := specPar now (h k a) n
+    let (F, o) := specPar now (h k a) n dt
     (h.set k a F, o)
 
 def specRun (h : Hist) : List Op → Hist × List Out
@@ -81,7 +81,15 @@ def Op.time : Op → Int
   | .cleanup now => now
   | .checkOnly now _ _ => now
   | .throttleOnly now _ _ => now
-  | .par now _ _ _ => now
+  | .par now _ _ _ _ => now
+
+/-- Time at which the op is over (`par` is observed `dt` later than it starts). -/
+def Op.endTime : Op → Int
+  | .par now _ _ _ dt => now + dt
+  | op => op.time
+
+theorem Op.time_le_endTime (op : Op) : op.time ≤ op.endTime := by
+  cases op <;> simp [Op.time, Op.endTime] <;> omega
 
 /-- Ops the sequential reading of the statement applies to.  `par` is one of them because its outcome
 does not depend on the interleaving (`C17_concurrent_failures_all_recorded`). -/
@@ -94,13 +102,13 @@ def Op.atomic : Op → Bool
 /-- A history with a monotone clock starting at `t0`, made of whole attempts and cleanups. -/
 def Monotone (t0 : Int) : List Op → Prop
   | [] => True
-  | op :: ops => t0 ≤ op.time ∧ op.atomic = true ∧ Monotone op.time ops
+  | op :: ops => t0 ≤ op.time ∧ op.atomic = true ∧ Monotone op.endTime ops
 
 instance decMonotone : (t0 : Int) → (ops : List Op) → Decidable (Monotone t0 ops)
   | _, [] => isTrue trivial
   | t0, op :: ops =>
-    have := decMonotone op.time ops
-    inferInstanceAs (Decidable (t0 ≤ op.time ∧ op.atomic = true ∧ Monotone op.time ops))
+    have := decMonotone op.endTime ops
+    inferInstanceAs (Decidable (t0 ≤ op.time ∧ op.atomic = true ∧ Monotone op.endTime ops))
 
 end SigModel.Throttle
 
@@ -123,7 +131,7 @@ def Judge.observe (j : Judge) (op : Op) (implOut : Out) : Judge × String :=
     | some l => decide (l ≤ op.time)
     | none => true
   let seq := j.sequential && mono && op.atomic
-  let j := { j with last := some op.time, sequential := seq }
+  let j := { j with last := some op.endTime, sequential := seq }
   if !seq then (j, "na") else
   match op with
   | .attempt now addr a failed =>
@@ -146,30 +154,33 @@ def Judge.observe (j : Judge) (op : Op) (implOut : Out) : Judge × String :=
         let bad := j'.delays.any fun (c', d') => (c' ≤ cnt && d' > d) || (cnt ≤ c' && d > d')
         ({ j' with delays := (cnt, d) :: j'.delays },
           if bad then "violated:delay-decreases-with-more-failures" else "ok")
-  | .par now addr a n =>
+  | .par now addr a n dt =>
     let k := throttleKey addr
     let F := j.hist k a
     let cnt := ageCount now F
+    let now2 := now + dt
     match implOut with
     | .rest p recs blk ds =>
-      if specRefused now F then
-        (j, if p ≠ 0 || !blk then "violated:not-refused-with-10-failures-in-30min" else "ok")
-      else
-        let F' := F ++ List.replicate n now
-        let j' := { j with hist := j.hist.set k a F' }
-        if p ≠ n then (j', "violated:refused-with-fewer-than-10-failures-in-30min") else
-        if recs < ageCount now F' then (j', "violated:fewer-records-than-failures") else
-        if recs > ageCount now F' then (j', "violated:more-records-than-failures") else
-        if specRefused now F' && !blk then (j', "violated:not-refused-with-10-failures-in-30min") else
-        if !specRefused now F' && blk then (j', "violated:refused-with-fewer-than-10-failures-in-30min") else
-        if ds.length ≠ n then (j', "violated:failure-not-delayed") else
-        if ds.any (· > stmtMaxDelay) then (j', "violated:delay-exceeds-25s") else
-        -- the i-th smallest delay belongs to the failure that found `cnt + i` earlier ones
-        let pairs := (List.range n).zip ds |>.map fun (i, d) => (cnt + i, d)
-        let all := pairs ++ j'.delays
-        let bad := pairs.any fun (c, d) => all.any fun (c', d') => (c' ≤ c && d' > d) || (c ≤ c' && d > d')
-        ({ j' with delays := all },
-          if bad then "violated:delay-decreases-with-more-failures" else "ok")
+      let want := if specRefused now F then 0 else n
+      let F' := F ++ List.replicate want now
+      let j' := { j with hist := j.hist.set k a F' }
+      if p < want then (j', "violated:refused-with-fewer-than-10-failures-in-30min") else
+      if p > want then (j', "violated:not-refused-with-10-failures-in-30min") else
+      if recs < ageCount now2 F' then (j', "violated:fewer-records-than-failures") else
+      if recs > ageCount now2 F' then (j', "violated:more-records-than-failures") else
+      if specRefused now2 F' && !blk then (j', "violated:not-refused-with-10-failures-in-30min") else
+      if !specRefused now2 F' && blk then (j', "violated:refused-with-fewer-than-10-failures-in-30min") else
+      if ds.length ≠ p then (j', "violated:failure-not-delayed") else
+      if ds.any (· > stmtMaxDelay) then (j', "violated:delay-exceeds-25s") else
+      -- with checks made later (`dt > 0`) running alongside, records may expire between two of the
+      -- failures: the delays are then only bounded, not paired with counts
+      if dt ≠ 0 then (j', "ok") else
+      -- the i-th smallest delay belongs to the failure that found `cnt + i` earlier ones
+      let pairs := (List.range p).zip ds |>.map fun (i, d) => (cnt + i, d)
+      let all := pairs ++ j'.delays
+      let bad := pairs.any fun (c, d) => all.any fun (c', d') => (c' ≤ c && d' > d) || (c ≤ c' && d > d')
+      ({ j' with delays := all },
+        if bad then "violated:delay-decreases-with-more-failures" else "ok")
     | _ => (j, "violated:no-outcome")
   | _ => (j, "ok")
 
